@@ -207,6 +207,77 @@ fn run_responder(layout_dual: bool, rfc_flush: bool, trace: bool) -> CaseResult 
     res
 }
 
+// ---------------------------------------------------------------- S: several records under one name and type
+
+/// Two instances of one type on a host with two addresses: the type has two PTRs and the host two
+/// A records.  A question for the rrset comes with every assignment of {absent, listed stale, listed
+/// fresh} to its two records and to a third record of the same name and type that is not ours, in
+/// every order of the known-answer list.  Each of our records must be left out iff it is listed fresh.
+fn run_rrsets(trace: bool) -> CaseResult {
+    let mut res = CaseResult::default();
+    let mut w = World::one(lay_v4());
+    w.trace = trace;
+    w.ds[0].h.set_ip_check_interval(3600).unwrap();
+    for nm in ["alpha", "beta"] {
+        w.ds[0].h.register(svc("_t._tcp.local.", nm, "host.local.", "10.0.0.5,10.0.0.6", 80, &[])).unwrap();
+        w.poke(0);
+    }
+    w.advance(4000);
+    let ty = n("_t._tcp.local");
+    let host = n("host.local");
+    let sets: Vec<(Name, u16, Vec<Record>, Record)> = vec![
+        (ty.clone(), T_PTR, vec![ptr(&ty, &n("alpha._t._tcp.local"), 4500), ptr(&ty, &n("beta._t._tcp.local"), 4500)], ptr(&ty, &n("gamma._t._tcp.local"), 4500)),
+        (host.clone(), T_A, vec![a(&host, [10, 0, 0, 5], 120), a(&host, [10, 0, 0, 6], 120)], a(&host, [10, 0, 0, 77], 120)),
+    ];
+    const PERMS: [[usize; 3]; 6] = [[0, 1, 2], [0, 2, 1], [1, 0, 2], [1, 2, 0], [2, 0, 1], [2, 1, 0]];
+    for (qn, qt, ours, foreign) in &sets {
+        for k in 0..27u64 {
+            let x = unrank(k, &[3, 3, 3]); // 0 absent, 1 stale (TTL 1), 2 fresh (full TTL)
+            for perm in PERMS {
+                let mut m = query(vec![(qn.clone(), *qt)]);
+                for &slot in &perm {
+                    let (rec, st) = if slot < 2 { (&ours[slot], x[slot]) } else { (foreign, x[2]) };
+                    if st > 0 {
+                        let mut r = rec.clone();
+                        r.flush = false;
+                        r.ttl = if st == 1 { 1 } else { rec.ttl };
+                        m.answers.push(r);
+                    }
+                }
+                let from = w.log.len();
+                w.deliver(0, IF0, PEER0, build(&m));
+                res.transitions += 1;
+                let resp: Option<&Msg> = w.log[from..].iter().find_map(|e| match &e.kind { Kind::Out(o) => o.msg.as_ref().ok(), _ => None });
+                let ctx = || format!("question {} t{} with known answers {:?} -> {}", show_name(qn), qt, m.answers.iter().map(|r| r.summary()).collect::<Vec<_>>(), resp.map(|m| m.summary()).unwrap_or_else(|| "no response".into()));
+                for (slot, r) in ours.iter().enumerate() {
+                    let present = resp.is_some_and(|m| m.answers.iter().any(|y| y.rtype == r.rtype && name_eq_ci(&y.name, &r.name) && y.rd == r.rd));
+                    if x[slot] == 2 {
+                        res.count("rrset_suppression_expected", 1);
+                        if present {
+                            res.viols.push(viol(format!("C10|responder|answer-not-suppressed|one-of-several-records-of-the-name-and-type|type{}", r.rtype), ctx()));
+                        }
+                    } else {
+                        res.count("rrset_answer_expected", 1);
+                        if !present {
+                            res.viols.push(viol(format!("C10|responder|answer-missing-although-not-suppressed|one-of-several-records-of-the-name-and-type|type{}", r.rtype), ctx()));
+                        }
+                    }
+                }
+                if x[0] == 2 && x[1] == 2 && *qt == T_PTR && resp.is_some() {
+                    res.viols.push(viol("C10|responder|response-although-the-only-answer-was-suppressed", ctx()));
+                }
+            }
+        }
+    }
+    if let Some(f) = daemon_fault(&w, 0) {
+        res.viols.push(viol("C10|daemon-fault", f));
+    }
+    res.nontrivial = true;
+    res.outcome = outcome_hash(&w.log);
+    res.states = final_states(&w);
+    res
+}
+
 // ---------------------------------------------------------------- S: querier side
 
 fn run_querier(ttl: u32, two_intf: bool, late: bool, trace: bool) -> CaseResult {
@@ -302,6 +373,16 @@ pub fn check(tier: &str) -> i32 {
         run: Box::new(|i, tr| run_responder(i / 2 == 1, i % 2 == 0, tr)),
     };
     rep.run_part(&resp, Duration::from_secs(300));
+    let rr = FnPart {
+        name: "S-responder-several-records-per-name".into(),
+        rule: "two instances of one type on a host with two addresses; the PTR question for the type and the A question for the host, each with every assignment of {absent, listed with TTL 1, listed with the full TTL} to our two records of that name and type and to a third one that is not ours (27) x every order of the known-answer list (6); each of our records is left out iff it is listed fresh".into(),
+        n: 1,
+        describe: Box::new(|_| "all 2 x 27 x 6 queries on one daemon".into()),
+        run: Box::new(|_, tr| run_rrsets(tr)),
+    };
+    rep.run_part(&rr, Duration::from_secs(120));
+    rep.require("S-responder-several-records-per-name", "rrset_suppression_expected");
+    rep.require("S-responder-several-records-per-name", "rrset_answer_expected");
     let ttls: Vec<u32> = if thorough { (2..=120).collect() } else { (2..=20).collect() };
     let nt = ttls.len() as u64;
     let qr = FnPart {
